@@ -56,6 +56,96 @@ def _conjunct_of(node, test):
 
 
 _CFGS = {}
+_BANNER_FACT = {}
+
+
+def _protocol_matches_nonempty(f, arg):
+    """min()/max() argument `RX_PROTOCOL.findall(X)` / `re.findall(RX_PROTOCOL, X)` inside banner.Banner where X is capture group 1 of a successful RX_BANNER
+    match: the sequence is non-empty because every string group 1 can capture contains a match of RX_PROTOCOL -- a regular-language inclusion decided on the
+    automata of the two constant patterns (L(group 1) is a subset of .*RX_PROTOCOL.*), plus the def-use fact that X is that group of a match tested against None."""
+    if f._module.name != 'banner' or not isinstance(arg, ast.Call):
+        return False
+    fn = arg.func
+    subject = None
+    if isinstance(fn, ast.Attribute) and fn.attr == 'findall' and unparse(fn.value).endswith('RX_PROTOCOL') and len(arg.args) == 1:
+        subject = arg.args[0]
+    elif unparse(fn) == 're.findall' and len(arg.args) == 2 and unparse(arg.args[0]).endswith('RX_PROTOCOL'):
+        subject = arg.args[1]
+    if subject is None:
+        return False
+    # X is mx.group(1), or a name bound to it / to the first element of mx.groups(), with mx = <...>RX_BANNER.match(...)
+    def match_var(e):
+        if isinstance(e, ast.Call) and isinstance(e.func, ast.Attribute) and e.func.attr == 'group' and len(e.args) == 1 and isinstance(e.args[0], ast.Constant) and e.args[0].value == 1 and isinstance(e.func.value, ast.Name):
+            return e.func.value.id
+        return None
+    mv = match_var(subject)
+    if mv is None and isinstance(subject, ast.Name):
+        for d in walk_no_nested(f):
+            if isinstance(d, ast.Assign) and len(d.targets) == 1:
+                t, v = d.targets[0], d.value
+                if isinstance(t, ast.Name) and t.id == subject.id and match_var(v):
+                    mv = match_var(v)
+                if isinstance(t, ast.Tuple) and t.elts and isinstance(t.elts[0], ast.Name) and t.elts[0].id == subject.id and isinstance(v, ast.Call) and isinstance(v.func, ast.Attribute) and v.func.attr == 'groups' and isinstance(v.func.value, ast.Name):
+                    mv = v.func.value.id
+    if mv is None:
+        return False
+    defs = [d for d in walk_no_nested(f) if isinstance(d, ast.Assign) and len(d.targets) == 1 and isinstance(d.targets[0], ast.Name) and d.targets[0].id == mv]
+    if len(defs) != 1 or not (isinstance(defs[0].value, ast.Call) and isinstance(defs[0].value.func, ast.Attribute) and defs[0].value.func.attr == 'match' and unparse(defs[0].value.func.value).endswith('RX_BANNER')):
+        return False
+    from sa.logic import implied_atoms as _ia3
+    stmt = arg
+    while stmt is not None and not isinstance(stmt, ast.stmt):
+        stmt = getattr(stmt, '_parent', None)
+    atoms = {(unparse(t), p) for t, p in _ia3(path_condition(stmt))}
+    if not (atoms & {('%s is None' % mv, False), ('%s is not None' % mv, True), (mv, True), ('not %s' % mv, False)}):
+        return False
+    key = id(f._module)
+    if key not in _BANNER_FACT:
+        _BANNER_FACT[key] = _banner_group1_contains_protocol(f)
+    return _BANNER_FACT[key]
+
+
+def _banner_group1_contains_protocol(f):
+    import re as _re
+    from sa.consteval import ConstEnv, NotLiteral
+    from sa.regex_automata import Lang, inclusion, split_at_group, Unsupported
+    cls = f._cls
+    if cls is None:
+        return False
+    exprs = {}
+    for st in cls.body:
+        if isinstance(st, ast.Assign) and len(st.targets) == 1 and isinstance(st.targets[0], ast.Name):
+            exprs[st.targets[0].id] = st.value
+        if isinstance(st, ast.Assign) and len(st.targets) == 1 and isinstance(st.targets[0], ast.Tuple) and isinstance(st.value, ast.Tuple) and len(st.targets[0].elts) == len(st.value.elts):
+            for t_, v_ in zip(st.targets[0].elts, st.value.elts):
+                if isinstance(t_, ast.Name):
+                    exprs[t_.id] = v_
+    try:
+        ce = ConstEnv(f._module._repo) if hasattr(f._module, '_repo') else None
+    except Exception:      # noqa: BLE001
+        ce = None
+
+    def const(e, depth=0):
+        # tiny constant folder for the pattern algebra of the class body: strings, names of class-level strings, str.format, re.sub / re.compile on constants
+        if isinstance(e, ast.Constant) and isinstance(e.value, str):
+            return e.value
+        if isinstance(e, ast.Name) and e.id in exprs and depth < 6:
+            return const(exprs[e.id], depth + 1)
+        if isinstance(e, ast.Call) and unparse(e.func) == 're.compile' and e.args:
+            return const(e.args[0], depth + 1)
+        if isinstance(e, ast.Call) and unparse(e.func) == 're.sub' and len(e.args) == 3:
+            a, b, c = [const(x, depth + 1) for x in e.args]
+            return _re.sub(a, b, c)
+        if isinstance(e, ast.Call) and isinstance(e.func, ast.Attribute) and e.func.attr == 'format' and not e.keywords:
+            return const(e.func.value, depth + 1).format(*[const(x, depth + 1) for x in e.args])
+        raise ValueError(unparse(e))
+    try:
+        banner, proto = const(exprs['RX_BANNER']), const(exprs['RX_PROTOCOL'])
+        pre, grp, post = split_at_group(banner, 1)
+        ok, _info = inclusion(grp, Lang('^.*(?:%s).*$' % proto.replace('(', '(?:')))
+        return bool(ok)
+    except (KeyError, ValueError, Unsupported, AnalysisError, _re.error):
+        return False
 
 
 def _nonempty_on_all_paths(f, site, name):
@@ -141,7 +231,7 @@ def partial_sites(f):
                 out.append(Site('ValueError', n, 'randrange over a range that is empty for a peer-chosen modulus p <= 5', f))
             elif isinstance(n.func, ast.Name) and n.func.id in ('max', 'min') and len(n.args) == 1 and get_kw(n, 'default') is None:
                 a = n.args[0]
-                if isinstance(a, (ast.GeneratorExp, ast.ListComp, ast.Name, ast.Call, ast.Attribute)):
+                if isinstance(a, (ast.GeneratorExp, ast.ListComp, ast.Name, ast.Call, ast.Attribute)) and not _protocol_matches_nonempty(f, a):
                     out.append(Site('ValueError', n, '%s() of a possibly empty sequence' % n.func.id, f))
             elif isinstance(n.func, ast.Attribute) and n.func.attr in ('index', 'rindex') and n.args and isinstance(n.args[0], ast.Constant) and isinstance(n.args[0].value, str):
                 # containment fact: on the path the same string is known to start/end with (or contain) a literal that contains the needle
@@ -358,8 +448,11 @@ def run(repo, rep, tier):
                     counters = {x.target.id for x in ast.walk(lp) if isinstance(x, ast.AugAssign) and isinstance(x.op, ast.Add) and isinstance(x.target, ast.Name)}
                     test_bound = isinstance(lp, ast.While) and any(isinstance(x, ast.Compare) and any(isinstance(o, (ast.Lt, ast.LtE)) for o in x.ops) and isinstance(x.left, ast.Name) and x.left.id in counters for x in ast.walk(lp.test))
                     bounded = test_bound or any(isinstance(x, ast.AugAssign) for x in ast.walk(lp)) and any(isinstance(x, ast.Compare) and any(isinstance(o, (ast.Gt, ast.GtE, ast.Lt, ast.LtE)) for o in x.ops) for s in lp.body for x in ast.walk(s) if isinstance(s, ast.If))
+                    # the finding is keyed by what drives the loop (the socket read its body performs), not by how its test is spelled
+                    drivers = [unparse(x.func) for s_ in lp.body for x in ast.walk(s_) if isinstance(x, ast.Call) and isinstance(x.func, ast.Attribute) and x.func.attr in ('recv', 'read_packet', 'recvfrom', 'accept')]
+                    key_ = 'peer-driven loop around %s' % drivers[0] if drivers else stmt_text(lp)
                     rep.check('loops', 'peer-driven loop has a counter or deadline: %s.%s `%s`' % (m, q, stmt_text(lp)[:50]), bounded, lp,
-                              'loop `%s` in %s.%s runs as long as the peer keeps feeding it (no iteration cap or deadline): a peer can keep the audit alive indefinitely' % (stmt_text(lp)[:70], m, q))
+                              'loop `%s` in %s.%s runs as long as the peer keeps feeding it (no iteration cap or deadline): a peer can keep the audit alive indefinitely' % (stmt_text(lp)[:70], m, q), stmt=key_)
                 else:
                     rep.ob('loops', '%s.%s L%d classified %s' % (m, q, lp.lineno, cls_), True)
     rep.extra['loop_classes'] = {k: len(v) for k, v in classes.items()}
